@@ -10,6 +10,9 @@ NOTE_E2 = "Trusted: CPython asyncio Task/Future/Queue semantics (stock classes r
 
 CHECKS = {
     "C07": {"engine": "E1", "note": NOTE_E1, "text": "Every concrete DPT class x every 6-bit payload x every byte array of length 0..2 (complete), plus per-position sweeps for longer payloads, decoded by the real from_knx and through GroupAddressDPT.set_decoded_data; only CouldNotParseTelegram/ConversionError may escape. Exhaustive over the stated space, so a single escaping exception type anywhere in it is found."},
+    "C08": {"engine": "E1", "note": NOTE_E1, "text": "Same complete payload space as C07; for every accepted payload the real encoder must accept the decoded value and the re-decoded value must be equal (NaN-aware; text types modulo the documented '?' replacement). Exhaustive for payloads of <=2 octets, per-position for longer ones."},
+    "C09": {"engine": "E1", "note": NOTE_E1, "text": "Every DPTNumeric class: every raw value of <=16-bit wire fields with fractional offsets, all power-of-two neighbourhoods for 32/64-bit, every representable DPT 9 value and all midpoints, every binary32 exponent for DPT 14; oracle in exact rational arithmetic against declared min/max/resolution."},
+    "C10": {"engine": "E1", "note": NOTE_E1, "text": "Every DPTComplex/DPTEnum class over its decode image in the C07 space; as_dict()/member name through json.dumps(allow_nan=False)/loads, to_knx, from_knx must give an equal value."},
 }
 
 NOT_APPLICABLE: dict[str, str] = {}
